@@ -155,6 +155,16 @@ def shadowing(t, bound=frozenset()):
 UNINTERPRETED = ("f", "g", "h", "F", "G")
 
 
+class Z(sp.Function):
+    """the interpreted head of ExprAlgebra: zero as soon as one argument is zero (evaluated at construction, like a product)"""
+
+    @classmethod
+    def eval(cls, *args):
+        if any(a == 0 for a in args):
+            return sp.S.Zero
+        return None
+
+
 def rational(label: str):
     return sp.Rational(label)
 
@@ -169,6 +179,8 @@ def concretise_pool(t):
     if k == "val":
         return rational(t[H])
     if k == "node":
+        if t[H] == "Z":
+            return Z(*[concretise_pool(y) for y in t[A]])
         return sp.Function(t[H])(*[concretise_pool(y) for y in t[A]])
     if k == "pool":
         return PoolSum(
